@@ -684,7 +684,7 @@ def _times_wrapper(ctx: Ctx, rule: str, n: int) -> int:
     ctx.analysed(w)
     wl = next((s for s in w.node.body if isinstance(s, ast.For) and isinstance(s.target, ast.Tuple) and len(s.target.elts) == 2), None)
     okw = False
-    wc = next((s.value for s in w.node.body if isinstance(s, ast.Assign) and isinstance(s.value, ast.ListComp) and len(s.value.generators) == 1
+    wc = next((s.value for s in w.node.body if isinstance(s, (ast.Assign, ast.Return)) and isinstance(s.value, ast.ListComp) and len(s.value.generators) == 1
                and isinstance(s.value.generators[0].target, ast.Tuple) and len(s.value.generators[0].target.elts) == 2), None)
     if wl is None and wc is not None:
         tvar, mvar = src(wc.generators[0].target.elts[0]), src(wc.generators[0].target.elts[1])
